@@ -1,6 +1,8 @@
 import SLModel.Drv.Util
 import SLModel.Drv.Doc
 import SLModel.Core.Filter
+import SLModel.Core.FilterLegacy
+import SLModel.Lemmas.FilterMore
 open Lean
 namespace SL.Drv.C08
 open SL.Drv SL.Drv.DocJ SL.Doc SL.Filter
@@ -62,8 +64,10 @@ def objOf (j : Json) : JO String :=
   | _ => .nil
 
 /-- `{"op":"eval","schema":…,"docs":[…],"filter":…}` →
-`{"col":[b…],"spec":[b…],"single":[b…],"plain":b}` — per document: the code's evaluation over
-the flattened columns, the documented tree semantics, and the hypothesis of the partial theorem -/
+`{"col":[b…],"spec":[b…],"legacy_col":[b…],"single":[b…],"plain":b,"plain_inside":b}` — per
+document: the code's evaluation over the flattened columns, the documented tree semantics, the
+evaluation over the columns as written before a2fc693 and the fragment on which those were
+faithful; `plain_inside` is the hypothesis of `flatten_sound` -/
 def handle (req : Json) : Except String Json := do
   let op ← getStr req "op"
   match op with
@@ -75,8 +79,10 @@ def handle (req : Json) : Except String Json := do
     return Json.mkObj [
       ("col", bools (docs.map (fun kv => Col.passes fold (flatten s kv) f))),
       ("spec", bools (docs.map (fun kv => Spec.passes fold s kv f))),
-      ("single", bools (docs.map (fun kv => singleCarrier s kv))),
-      ("plain", f.allPlain)]
+      ("legacy_col", bools (docs.map (fun kv => Col.passes fold (Legacy.flatten s kv) f))),
+      ("single", bools (docs.map (fun kv => Legacy.singleCarrier s kv))),
+      ("plain", f.allPlain),
+      ("plain_inside", f.plainInside)]
   | _ => throw s!"C08: unknown op {op}"
 
 end SL.Drv.C08
